@@ -187,9 +187,17 @@ def rule_coverage(ck: Check, repo: Repo) -> None:
         "files_without_licenses_excl": "report.files_without_licenses - files_without_both",
     }
     for k, v in want.items():
-        r.instance(f"plain-partition:{k}", {"definition": defs.get(k)})
+        # each part of the partition is written out element by element (a part that is only tested, or whose loop writes
+        # nothing, leaves its files out of the plain report while --json and --lines name them)
+        part_loops = [lp for lp in ast.walk(fp) if isinstance(lp, ast.For) and any(isinstance(n, ast.Name) and n.id == k for n in ast.walk(lp.iter))
+                      and _writes_loopvar(lp)]
+        r.instance(f"plain-partition:{k}", {"definition": defs.get(k), "rendering_loops": len(part_loops)})
         if defs.get(k) != v:
             r.violation(f"{LINT}.format_plain", f"partition {k}", f"{k} = {defs.get(k)}; expected {v}", repo.loc(fp))
+        elif not part_loops:
+            r.violation(f"{LINT}.format_plain", f"the files of {k} are not written",
+                        f"no loop over `{k}` writes its element: these files are missing from the plain report, the other formats list them",
+                        repo.loc(fp))
     # JSON lists
     td = repo.func(f"{RP}.ProjectReport.to_dict_lint")
     nc = None
@@ -367,6 +375,104 @@ def rule_exit(ck: Check, repo: Repo) -> None:
                     r.violation(q, "formatter", f"{e}", repo.loc(fn))
 
 
+def rule_dispatch(ck: Check, repo: Repo, rid: str = "R9") -> None:
+    """Which formatter's text reaches standard output for which option: --quiet nothing, --json format_json, --lines
+    format_lines, otherwise format_plain; lint-file: --quiet nothing, otherwise format_lines_subset.  The text must be ECHOED
+    (a formatter that is called and whose result is dropped prints nothing)."""
+    r = ck.rule(rid, "each output option echoes the text of its own formatter, applied to the generated report")
+    cmds = repo.commands()
+
+    class H(Hooks):
+        def atom(self, text, node, it):
+            return text if text in ("quiet", "json", "plain", "lines") else None
+
+        def event(self, text, call, it):
+            f = ast.unparse(call.func)
+            if f in ("click.echo", "print", "sys.stdout.write", "click.secho"):
+                inner = call.args[0] if call.args else None
+                if isinstance(inner, ast.Call) and ast.unparse(inner.func).startswith("format_"):
+                    return ("echo", ast.unparse(inner.func), it.text(inner.args[0]) if inner.args else "")
+                return ("echo", it.text(inner) if inner is not None else "", "")
+            return None
+
+    specs = {"lint": lambda v: [] if v("quiet") else ["format_json"] if v("json") else ["format_lines"] if v("lines") else ["format_plain"],
+             "lint-file": lambda v: [] if v("quiet") else ["format_lines_subset"]}
+    for name, spec in specs.items():
+        if name not in cmds:
+            raise AnalysisError(f"anchor vanished: command {name}")
+        fn = cmds[name]
+        q = repo.qualname_of(fn)
+        ck.analysed_fn(q)
+        leaves = tabulate(fn, H(), spec)
+        seen = set()
+        for d, leaf, exp in leaves:
+            short = {k: v for k, v in d.items() if k in ("quiet", "json", "plain", "lines")}
+            got = [e[1] for e in leaf.events if e[0] == "echo"]
+            key = (show_valuation(short), tuple(got))
+            if key in seen:
+                continue
+            seen.add(key)
+            r.instance(f"{name}:{show_valuation(short)}", {"command": name, "options": show_valuation(short), "echoed": got}, q)
+            if leaf.outcome and leaf.outcome[0] == "raise":
+                continue
+            if got != exp:
+                r.violation(q, f"output when [{show_valuation(short)}]",
+                            f"`reuse {name}` echoes {got or 'nothing'}; expected {exp or 'nothing'} - the formats no longer agree on what is"
+                            " reported (one of them prints another format, or nothing at all)", repo.loc(fn))
+            for e in leaf.events:
+                if e[0] == "echo" and e[1].startswith("format_") and not re.search(r"Report\.generate\(|^report$", e[2]):
+                    r.violation(q, "a formatter is applied to something other than the generated report", f"{e[1]}({e[2]})", repo.loc(fn))
+        r.floor(2, f"output paths of {name}", got=len(seen))
+
+
+def rule_json_serializer(ck: Check, repo: Repo, rid: str = "R10") -> None:
+    """to_dict_lint holds sets and Paths; json.dumps knows neither.  format_json hands json.dumps a `default` function that
+    turns a set into a list and a Path into its string - without it (or with its tests inverted) `lint --json` ends in a
+    TypeError while the other formats print the report."""
+    r = ck.rule(rid, "format_json serialises the sets and paths of the report (default= handler: set -> list, Path -> str)")
+    q = f"{LINT}.format_json"
+    fn = repo.func(q)
+    ck.analysed_fn(q)
+    dumps = [c for c in ast.walk(fn) if isinstance(c, ast.Call) and ast.unparse(c.func) == "json.dumps"]
+    if len(dumps) != 1:
+        raise AnalysisError("format_json: json.dumps call not found")
+    d = next((k.value for k in dumps[0].keywords if k.arg == "default"), None)
+    r.instance("default-handler", {"default": ast.unparse(d) if d is not None else None}, q)
+    if d is None:
+        r.violation(q, "json.dumps is called without a default= handler",
+                    "the report dictionary contains sets and Path objects: `reuse lint --json` raises TypeError", repo.loc(dumps[0]))
+        return
+    if not isinstance(d, ast.Name):
+        raise AnalysisError("format_json: default= is not a local function")
+    h = next((n for n in ast.walk(fn) if isinstance(n, ast.FunctionDef) and n.name == d.id), None)
+    if h is None:
+        raise AnalysisError(f"format_json: handler {d.id} not found")
+    param = h.args.args[0].arg
+
+    class H(Hooks):
+        def atom(self, text, node, it):
+            m = re.fullmatch(rf"isinstance\({param}, (\w+)\)", text)
+            return f"is_{m.group(1)}" if m else None
+
+    def spec(v):
+        if v("is_Path"):
+            return ("return", [f"str({param})", f"{param}.as_posix()", f"os.fspath({param})"])
+        if v("is_set"):
+            return ("return", [f"list({param})", f"sorted({param})"])
+        return ("any", [])   # what happens to other objects is not this property's business
+
+    n = 0
+    for dv, leaf, exp in tabulate(h, H(), spec):
+        n += 1
+        short = {k: v for k, v in dv.items() if k.startswith("is_")}
+        r.instance(f"serializer:{show_valuation(short)}", {"valuation": show_valuation(short), "outcome": leaf.outcome[:2]}, q)
+        if exp[0] != "any" and (leaf.outcome[0] != exp[0] or leaf.outcome[1] not in exp[1]):
+            r.violation(q, f"serializer cell [{show_valuation(short)}]",
+                        f"{leaf.outcome[:2]}; expected {exp[0]} {exp[1][0]}: a set (every list of the JSON report) or a path is not converted -"
+                        " `reuse lint --json` raises TypeError or prints a Python repr instead of a JSON list", repo.loc(h))
+    r.floor(3, "cells of the serializer", got=n)
+
+
 def run(ck: Check, repo: Repo) -> None:
     ck.explanation = (
         "Sibling agreement between the four renderings of one report: for format_plain, format_lines"
@@ -382,6 +488,8 @@ def run(ck: Check, repo: Repo) -> None:
     rule_counters(ck, repo)
     rule_subset(ck, repo)
     rule_exit(ck, repo)
+    rule_dispatch(ck, repo)
+    rule_json_serializer(ck, repo)
     r5 = ck.rule("R5", "lint-file's subset is compared like with like (resolved requested paths vs resolved candidates)")
     from . import c03
     c03.subset_normalisation(r5, repo)
